@@ -37,7 +37,7 @@ def gen(tier, rng, shard, nshards):
         tol = float(S.pick(rng, [1e-4, 1e-6, 1e-8, 1e-10])) if dt in ("f8", "c16") else float(S.pick(rng, [1e-3, 1e-4]))
         if dt in ("f8", "c16") and rng.random() < 0.25:
             node = rescale_units(node, float(S.pick(rng, [1e-9, 1e9])))  # the solution does not depend on the unit of the operator
-        yield {"mode": "tree", "spec": node, "alg": alg, "tol": tol, "cols": int(S.pick(rng, [0, 1, 3])),
+        yield {"mode": "tree", "spec": node, "alg": alg, "tol": tol, "cols": int(S.pick(rng, [0, 1, 3, -1])),
                "bdt": S.pick(rng, [dt] * 8 + ["f8", "c16"]) if dt in ("f8", "c16") else dt, "seed": S.seed(rng), "psd": psd}
 
 
@@ -142,6 +142,8 @@ def solve_checks(ctx, node, case, collect):
     alg = make_alg(case["alg"], case["tol"], n, single=ref.eps > 1e-10, M=ref.M.astype(ref.dtype), seed=case["seed"])
     if case["alg"] == "CG-P":
         ctx.count("preconditioner", ["jacobi", "scaled-identity-small", "scaled-identity-large", "inverse-of-neighbour"][case["seed"] % 4])
+    if case["cols"] == -1:
+        case = dict(case, cols=n if n <= 8 else 3)  # a square right-hand-side block: as many columns as the operator has rows
     shape = (n, ) if case["cols"] == 0 else (n, case["cols"])
     b = P.operand(case["seed"], shape, case["bdt"], "normal")
     if b.ndim == 2 and b.shape[1] == 3 and case["seed"] % 2 == 0:
